@@ -344,27 +344,85 @@ impl<T: ?Sized> Clone for Reference<T> {
 ///`rrtk::reference::to_dyn` interchangably.
 #[macro_export]
 macro_rules! to_dyn {
+    ($trait_:path, $was:expr) => {
+        $crate::__to_dyn_impl!($trait_, $was)
+    };
+}
+pub use to_dyn;
+//The arms of `to_dyn!` that exist depend on RRTK's features, not on the features of the crate the
+//macro is expanded in. A `#[cfg]` inside an exported macro body is evaluated in the calling crate,
+//so the feature selection is done here, on the definitions, and the bodies use `$crate` paths.
+#[doc(hidden)]
+pub mod __to_dyn_private {
+    #[cfg(feature = "alloc")]
+    pub use alloc::rc::Rc;
+    pub use core::cell::RefCell;
+    #[cfg(feature = "std")]
+    pub use std::sync::RwLock;
+}
+#[cfg(feature = "std")]
+#[doc(hidden)]
+#[macro_export]
+macro_rules! __to_dyn_impl {
     ($trait_:path, $was:expr) => {{
-        #[cfg(feature = "alloc")]
-        extern crate alloc;
         #[allow(unreachable_patterns)]
         match $was.into_inner() {
-            reference::ReferenceUnsafe::Ptr(ptr) => unsafe {
-                Reference::from_ptr(ptr as *mut dyn $trait_)
+            $crate::reference::ReferenceUnsafe::Ptr(ptr) => unsafe {
+                $crate::Reference::from_ptr(ptr as *mut dyn $trait_)
             },
-            #[cfg(feature = "alloc")]
-            reference::ReferenceUnsafe::RcRefCell(rc_ref_cell) => Reference::from_rc_ref_cell(
-                rc_ref_cell as alloc::rc::Rc<core::cell::RefCell<dyn $trait_>>,
-            ),
-            #[cfg(feature = "std")]
-            reference::ReferenceUnsafe::PtrRwLock(ptr_rw_lock) => unsafe {
-                Reference::from_ptr_rw_lock(ptr_rw_lock as *const std::sync::RwLock<dyn $trait_>)
+            $crate::reference::ReferenceUnsafe::RcRefCell(rc_ref_cell) => {
+                $crate::Reference::from_rc_ref_cell(
+                    rc_ref_cell
+                        as $crate::reference::__to_dyn_private::Rc<
+                            $crate::reference::__to_dyn_private::RefCell<dyn $trait_>,
+                        >,
+                )
+            }
+            $crate::reference::ReferenceUnsafe::PtrRwLock(ptr_rw_lock) => unsafe {
+                $crate::Reference::from_ptr_rw_lock(
+                    ptr_rw_lock as *const $crate::reference::__to_dyn_private::RwLock<dyn $trait_>,
+                )
             },
             _ => unimplemented!(),
         }
     }};
 }
-pub use to_dyn;
+#[cfg(all(feature = "alloc", not(feature = "std")))]
+#[doc(hidden)]
+#[macro_export]
+macro_rules! __to_dyn_impl {
+    ($trait_:path, $was:expr) => {{
+        #[allow(unreachable_patterns)]
+        match $was.into_inner() {
+            $crate::reference::ReferenceUnsafe::Ptr(ptr) => unsafe {
+                $crate::Reference::from_ptr(ptr as *mut dyn $trait_)
+            },
+            $crate::reference::ReferenceUnsafe::RcRefCell(rc_ref_cell) => {
+                $crate::Reference::from_rc_ref_cell(
+                    rc_ref_cell
+                        as $crate::reference::__to_dyn_private::Rc<
+                            $crate::reference::__to_dyn_private::RefCell<dyn $trait_>,
+                        >,
+                )
+            }
+            _ => unimplemented!(),
+        }
+    }};
+}
+#[cfg(not(feature = "alloc"))]
+#[doc(hidden)]
+#[macro_export]
+macro_rules! __to_dyn_impl {
+    ($trait_:path, $was:expr) => {{
+        #[allow(unreachable_patterns)]
+        match $was.into_inner() {
+            $crate::reference::ReferenceUnsafe::Ptr(ptr) => unsafe {
+                $crate::Reference::from_ptr(ptr as *mut dyn $trait_)
+            },
+            _ => unimplemented!(),
+        }
+    }};
+}
 ///Create a new `Rc<RefCell>` of something and return a [`Reference`] to it. Because of how [`Rc`]
 ///works, it won't be dropped until the last clone of the `Reference` is. This is reexported at the
 ///crate level.
